@@ -39,7 +39,7 @@ CONFIG = {
                     "sub-schemas (test.schema.v1.*), recursive (j5.schema.v1.*, NestedExposed), disjoint, generated descriptor graphs "
                     "(dynamicpb), mixed; every result is compared with the result of the same call alone on a fresh codec (JSON "
                     "compared up to object key order). Failures: a race detector report (signature race:<function of the write>), "
-                    "fatal 'concurrent map', crash, deadlock (60 s watchdog per round), differing result, unlinked ref observed. Non-trivial = a "
+                    "fatal 'concurrent map', crash, deadlock (no call completed for 120 s), differing result, unlinked ref observed. Non-trivial = a "
                     "child that completed calls; distinct by op text.",
         },
     ],
